@@ -31,7 +31,7 @@ from ..cfg import explore, canon_fact
 from ..rules import call_sites, node_calls, event_facts, check_settles, settle_sites, fresh_cfg
 from ..mutate import mutate, remove_stmts, replace_expr, replace_stmt, parse_stmt, parse_expr
 from ..model import AnalysisError
-from ..x_guardflow import ClassEffects, guard_facts, has, prune_exceptions, unbound_uses, settles_guarded
+from ..x_guardflow import ClassEffects, guard_facts, has, prune_exceptions, unbound_uses, settles_guarded, edge_facts, as_aug
 
 TECHNIQUE = "SETTLE lint + ownership dominance on the CFG + raise-model exception escape + definite assignment"
 EXPLANATION = (
@@ -219,7 +219,7 @@ def connector(ck):
     for m in res_nodes:
         ck.ob("C10.losers-closed", ocd, m.ast, m.id not in bad, "a successful attempt's stream is either handed out as the result or closed (late arrival) on every path")
     # remaining
-    dec = lambda m: m.kind == "stmt" and isinstance(m.ast, ast.AugAssign) and isinstance(m.ast.op, ast.Sub) and q.dotted(m.ast.target) == "self.remaining" and q.is_const(m.ast.value, 1)
+    dec = lambda m: m.kind == "stmt" and isinstance(as_aug(m.ast), ast.AugAssign) and isinstance(as_aug(m.ast).op, ast.Sub) and q.dotted(as_aug(m.ast).target) == "self.remaining" and q.is_const(as_aug(m.ast).value, 1)
     for fi in methods:
         for st in q.stores_to(fi.node, "self.remaining"):
             if fi is init:
@@ -227,7 +227,7 @@ def connector(ck):
                 ok = isinstance(v, ast.Call) and q.dotted(v.func) == "len" and v.args and q.dotted(v.args[0]) in init.params()
                 ck.ob("C10.remaining-once", fi, st, ok, "remaining starts as the number of addresses")
             else:
-                ok = fi is ocd and isinstance(st, ast.AugAssign) and isinstance(st.op, ast.Sub) and q.is_const(st.value, 1)
+                ok = fi is ocd and isinstance(as_aug(st), ast.AugAssign) and isinstance(as_aug(st).op, ast.Sub) and q.is_const(as_aug(st).value, 1)
                 ck.ob("C10.remaining-once", fi, st, ok, "remaining is only ever decremented by one, in on_connect_done")
     counts = _count_paths(ocd, dec)
     ck.ob("C10.remaining-once", ocd, ocd.node, counts == {1}, "remaining is decremented exactly once on every path through on_connect_done (counts %s)" % sorted(counts), construct="decrements per completed attempt = %s" % sorted(counts))
@@ -263,7 +263,7 @@ def connector(ck):
             return val
 
         def edge(n, kind, val):
-            if val == "pending" and n.kind == "test" and kind in ("true", "false") and canon_fact(n.ast, kind == "true") == ("self.future.done()", True):
+            if val == "pending" and ("self.future.done()", True) in edge_facts(n, kind, gfo):
                 return "done"
             return val
 
@@ -569,11 +569,21 @@ def timeouts_wired(ck):
             return True
         return val
 
-    seen = explore(st_.cfg, False, tr, lambda t: t == "connect_timeout is None", follow_exc=False)
-    for f, v in sorted(seen.get(st_.cfg.exit.id, ()), key=repr):
-        if ("connect_timeout is None", True) in f:
+    def tr_w(n, val):
+        armed, absent = val
+        return (True, absent) if n in sct else val
+
+    def edge_w(n, kind, val):
+        armed, absent = val
+        if ("connect_timeout is None", True) in edge_facts(n, kind, gf):
+            absent = True
+        return (armed, absent)
+
+    seen = explore(st_.cfg, (False, False), tr_w, lambda t: False, edge_transfer=edge_w, follow_exc=False)
+    for _f, (armed, absent) in sorted(seen.get(st_.cfg.exit.id, ()), key=repr):
+        if absent:
             continue
-        ck.ob("C10.timeout-wired", st_, st_.node, v, "a given connect timeout is armed on every path of start()", construct="start(): timeout given, armed=%s" % v)
+        ck.ob("C10.timeout-wired", st_, st_.node, armed, "a given connect timeout is armed on every path of start()", construct="start(): timeout given, armed=%s" % armed)
     ef = event_facts(st_, {"first": node_calls("self.try_connect")}, cond_facts=False)
     for qn, cb in ((CN + ".set_connect_timeout", "self.on_connect_timeout"), (CN + ".set_timeout", "self.on_timeout")):
         f = ck.func(TC, qn)
